@@ -210,3 +210,31 @@ Print Assumptions C07_source_forward_exact.
 From CG Require Import Proofs.GenEq10.
 Example C07_source_occurrence_is_model : _ := g_recur_occurrence_to_interval_eq.
 Print Assumptions C07_source_occurrence_is_model.
+
+(* ---- tie C (third extension): RecurringPattern.__init__ as the code has it.  The constructor is
+   translated as seven fragments that tile its body, and their generated sequence g_rp_init
+   (Gen/Source.v); Proofs/GenEq_rec_init.v. ---- *)
+From CG Require Import Model.RecSrc Proofs.GenEq_rec_init.
+
+(* the constructor, for all arguments and all instances of the string / datetime libraries, is the
+   hand-written rp_new (ValueError exactly where rp_new has None) *)
+Example C07_source_init_is_model : _ := @g_rp_init_eq.
+Print Assumptions C07_source_init_is_model.
+
+(* what the fetch theorems above assume of a rule (rule_accepted) is what the constructor
+   guarantees of every object it builds ... *)
+Example C07_source_init_rule_accepted : _ := @src_init_rule_accepted.
+Print Assumptions C07_source_init_rule_accepted.
+
+(* ... and an int start that is neither a time of day nor a timestamp is rejected *)
+Example C07_source_init_rejects_start : _ := @src_init_rejects_start.
+Print Assumptions C07_source_init_rejects_start.
+
+(* the fields the fetch functions read are those of the pattern Model/Ical.v builds (rp_init for an
+   int start, rp_init_dt for an aware datetime), on the zone model's datetimes *)
+Example C07_source_init_is_rp_init : _ := @src_init_is_rp_init.
+Print Assumptions C07_source_init_is_rp_init.
+Example C07_source_init_is_rp_init_dt : _ := @src_init_is_rp_init_dt.
+Print Assumptions C07_source_init_is_rp_init_dt.
+Example C07_source_init_nonvacuous : _ := ex_init_dt.
+Example C07_source_init_validation_instances : _ := ex_init_rejects.
